@@ -236,5 +236,5 @@ func checkCross(c crossCase) *vk.Failure {
 }
 
 func TestCross(t *testing.T) {
-	vk.Run(t, "cross", vk.Opts{Quick: 600, Thorough: 15000}, drawCross, checkCross)
+	vk.Run(t, "cross", vk.Opts{Quick: 1800, Thorough: 45000}, drawCross, checkCross)
 }
